@@ -87,7 +87,10 @@ static void one_sort(const unsigned char *keys, size_t n, size_t sz, int algo_i,
         if (n) memcpy(arr, orig, n * sz); else __asan_poison_memory_region(arr, 1);
         g_arr = arr; g_n = n; g_sz = sz; g_scratch = scratch;
         if (use_chk_swap == 2) __asan_poison_memory_region(scratch, sz);       /* elements move only through the caller's swap function: the scratch space is the callback's business */
-        SHIM_CALL(ab, cstl_raw_array_sort(arr, n, sz, cmp_key, &cmp_calls, use_chk_swap == 2 ? own_swap : use_chk_swap ? chk_swap : cstl_swap, scratch, (cstl_sort_algorithm_t)ALGOS[algo_i]));
+        /* 3: no scratch space at all (a swap function that needs none), and an allocator that has nothing to give: sorting is not an operation that may fail */
+        if (use_chk_swap == 3) { g_scratch = NULL; shim_fail_plan(NULL, 0, 1); }
+        SHIM_CALL(ab, cstl_raw_array_sort(arr, n, sz, cmp_key, &cmp_calls, use_chk_swap >= 2 ? own_swap : use_chk_swap ? chk_swap : cstl_swap, use_chk_swap == 3 ? NULL : scratch, (cstl_sort_algorithm_t)ALGOS[algo_i]));
+        if (use_chk_swap == 3) shim_fail_plan(NULL, 0, 0);
         if (use_chk_swap == 2) __asan_unpoison_memory_region(scratch, sz);
     } else {
         cstl_vector_init(&v, sz);
@@ -247,7 +250,7 @@ static void do_array(const unsigned char *keys, size_t n, size_t sz, int randlen
             describe_case("sort", keys, n, sz, a, path, path != 1);
             one_sort(keys, n, sz, a, path, path != 1);
             record();
-            if (path == 0 && a < 4) { describe_case("sort", keys, n, sz, a, 0, 2); one_sort(keys, n, sz, a, 0, 2); record(); }
+            if (path == 0 && a < 4) { describe_case("sort", keys, n, sz, a, 0, 2); one_sort(keys, n, sz, a, 0, 2); record(); describe_case("sort", keys, n, sz, a, 0, 3); one_sort(keys, n, sz, a, 0, 3); record(); }
         }
     }
     if (n >= 1) {
